@@ -2,6 +2,7 @@ package store
 
 import (
 	"context"
+	"errors"
 	"fmt"
 	"io"
 
@@ -34,6 +35,25 @@ func (u *UseCase) Get(ctx context.Context, key string) (io.ReadCloser, error) {
 		return nil, fmt.Errorf("file repository get: %w", err)
 	}
 
+	for {
+		content, err := u.getContent(ctx, f)
+		if !errors.Is(err, fs_db.ErrNotFound) {
+			return content, err
+		}
+
+		// The version may have been superseded and reclaimed, or rolled back, between the
+		// lookup and the read of its content: look again, and give up only if the key still
+		// resolves to the same (deleted) version.
+		next, nErr := u.fRepo.Get(ctx, tx.Id, key, filter)
+		if nErr != nil || next.ContentId == f.ContentId {
+			return nil, err
+		}
+
+		f = next
+	}
+}
+
+func (u *UseCase) getContent(ctx context.Context, f model.File) (io.ReadCloser, error) {
 	verifhook.Point("uget.afterLookup")
 	cf, err := u.cfRepo.Get(ctx, f.ContentId)
 	if err != nil {
